@@ -20,6 +20,7 @@ import (
 	"go/ast"
 	"go/token"
 	"go/types"
+	"regexp"
 	"sort"
 	"strings"
 
@@ -130,7 +131,7 @@ func discoverComparators(p *Program) []*ssa.Function {
 					continue
 				}
 				sig, ok := cc.Value.Type().Underlying().(*types.Signature)
-				if !ok || !isLessSig(sig) {
+				if !ok || !(isLessSig(sig) || isLessSigWithConfig(sig)) {
 					continue
 				}
 				if sc := cc.StaticCallee(); sc != nil {
@@ -149,6 +150,29 @@ func discoverComparators(p *Program) []*ssa.Function {
 	}
 	sortFns(out)
 	return out
+}
+
+// isLessSigWithConfig: func(l, r T, cfg ...) bool with scalar configuration parameters after
+// the two elements (e.g. tagBefore(a, b *Tag, flat bool)).
+func isLessSigWithConfig(sig *types.Signature) bool {
+	if sig.Params().Len() < 3 || sig.Results().Len() != 1 {
+		return false
+	}
+	if b, ok := sig.Results().At(0).Type().Underlying().(*types.Basic); !ok || b.Kind() != types.Bool {
+		return false
+	}
+	if !types.Identical(sig.Params().At(0).Type(), sig.Params().At(1).Type()) {
+		return false
+	}
+	if _, isBasic := sig.Params().At(0).Type().Underlying().(*types.Basic); isBasic {
+		return false // (i, j int, …) is not an element comparison
+	}
+	for i := 2; i < sig.Params().Len(); i++ {
+		if _, ok := sig.Params().At(i).Type().Underlying().(*types.Basic); !ok {
+			return false
+		}
+	}
+	return true
 }
 
 // parseComparator reads the body of f as a lexicographic chain.
@@ -171,7 +195,7 @@ func parseComparator(p *Program, f *ssa.Function) *comparator {
 			names = append(names, n.Name)
 		}
 	}
-	if len(names) != 2 {
+	if len(names) < 2 {
 		c.errs = append(c.errs, "comparator does not have two named parameters")
 		return c
 	}
@@ -278,7 +302,8 @@ func (c *comparator) fillReturn(p *Program, step *cmpStep, e ast.Expr, env map[s
 	case *ast.BinaryExpr:
 		step.retL, step.retR, step.op = x.X, x.Y, x.Op
 	case *ast.CallExpr:
-		if len(x.Args) == 2 {
+		if len(x.Args) >= 2 {
+			// cmp(l, r) or cmp(l, r, configuration…)
 			step.delegate = exprStr(p.Fset, x.Fun)
 			step.retL, step.retR = x.Args[0], x.Args[1]
 			step.op = token.ILLEGAL
@@ -563,7 +588,7 @@ func (c *Check) totalityRules(parsed map[*ssa.Function]*comparator) {
 		{"graph.compareNodes", "report entries (nodes)", nodeIdentity("·")},
 		{"(graph.tags).Less", "tags", func(keys []string) string {
 			for _, k := range keys {
-				if k == "t.t[·].Name" {
+				if k == "·.Name" {
 					return ""
 				}
 			}
@@ -572,10 +597,10 @@ func (c *Check) totalityRules(parsed map[*ssa.Function]*comparator) {
 		{"(graph.edgeList).Less", "edges", func(keys []string) string {
 			src, dst := false, false
 			for _, k := range keys {
-				if k == "fmt.Sprint(el[·].Src.Info)" || k == "el[·].Src.Info" {
+				if k == "fmt.Sprint(·.Src.Info)" || k == "·.Src.Info" {
 					src = true
 				}
-				if k == "fmt.Sprint(el[·].Dest.Info)" || k == "el[·].Dest.Info" {
+				if k == "fmt.Sprint(·.Dest.Info)" || k == "·.Dest.Info" {
 					dst = true
 				}
 			}
@@ -585,6 +610,7 @@ func (c *Check) totalityRules(parsed map[*ssa.Function]*comparator) {
 			return "the chain ends on PrintableName of source and destination, which is not injective on nodes (it omits OrigName, StartLine, Objfile …): two equal-weight edges between such nodes are unordered; an identity key of Src and Dest (their whole Info) is needed"
 		}},
 	}
+	elemOf := map[string]string{"graph.compareNodes": "*graph.Node", "(graph.tags).Less": "*graph.Tag", "(graph.edgeList).Less": "*graph.Edge"}
 	for _, w := range wants {
 		var cm *comparator
 		for f, o := range parsed {
@@ -594,10 +620,26 @@ func (c *Check) totalityRules(parsed map[*ssa.Function]*comparator) {
 		}
 		key := "total:" + w.fn
 		if cm == nil {
+			// renamed or rewritten (sort.Sort type ↔ sort.Slice closure): the one top-level
+			// comparator over the same element type
+			var cands []*comparator
+			for f, o := range parsed {
+				if comparatorElemType(f) == elemOf[w.fn] && !calledByOtherComparator(f, parsed) {
+					cands = append(cands, o)
+				}
+			}
+			if len(cands) == 1 {
+				cm = cands[0]
+			}
+		}
+		if cm == nil {
 			c.undecided("C08-R3", key, "", "comparator "+w.fn+" not found among the discovered comparators")
 			continue
 		}
 		keys := chainKeys(cm, 0)
+		for i, k := range keys {
+			keys[i] = elemRootRE.ReplaceAllString(k, "·")
+		}
 		if why := w.identity(keys); why == "" {
 			c.ok("C08-R3", key, p.relFile(cm.fn.Pos()), "the order of "+w.what+" is total", "chain "+strings.Join(keys, " , ")+" contains an identity key")
 		} else {
@@ -759,6 +801,53 @@ func mentionsKeyVar(keys []string, v string) bool {
 	for _, k := range keys {
 		if strings.HasPrefix(k, v+"[") {
 			return true
+		}
+	}
+	return false
+}
+
+// elemRootRE: the expression that selects the compared element in an index-based comparator
+// (`t.t[·]`, `el[·]`): replaced by the element itself so that keys do not depend on the names
+// of the slice and of the receiver.
+var elemRootRE = regexp.MustCompile(`[A-Za-z_][A-Za-z0-9_.]*\[·\]`)
+
+// comparatorElemType: the type of the elements f compares: its parameter type, or for
+// (i, j int) comparators the element type of the slice indexed by the first parameter.
+func comparatorElemType(f *ssa.Function) string {
+	params := f.Params
+	if f.Signature.Recv() != nil && len(params) > 0 {
+		params = params[1:]
+	}
+	if len(params) < 2 {
+		return ""
+	}
+	if bt, ok := params[0].Type().Underlying().(*types.Basic); !ok || bt.Info()&types.IsInteger == 0 {
+		return typeShort(params[0].Type())
+	}
+	for _, b := range f.Blocks {
+		for _, ins := range b.Instrs {
+			if ia, ok := ins.(*ssa.IndexAddr); ok && ia.Index == ssa.Value(params[0]) {
+				if et := elemTypeOf(ia.X.Type()); et != nil {
+					return typeShort(et)
+				}
+			}
+		}
+	}
+	return ""
+}
+
+// calledByOtherComparator: f is a tie-break helper of another discovered comparator.
+func calledByOtherComparator(f *ssa.Function, parsed map[*ssa.Function]*comparator) bool {
+	for g := range parsed {
+		if g == f {
+			continue
+		}
+		for _, b := range g.Blocks {
+			for _, ins := range b.Instrs {
+				if call, ok := ins.(ssa.CallInstruction); ok && call.Common().StaticCallee() == f {
+					return true
+				}
+			}
 		}
 	}
 	return false
